@@ -112,6 +112,9 @@ pub fn random_tame_kind(rng: &mut Rng) -> BoxKind {
 pub fn point_in(rng: &mut Rng, b: &[(f32, f32)]) -> Vec<f32> {
     b.iter()
         .map(|&(lo, hi)| match rng.below(5) {
+            // a degenerate side has exactly one bit-realisable point
+            // (-0.0 + 0.0 would give +0.0, which rand/mix tell apart)
+            _ if lo.to_bits() == hi.to_bits() => lo,
             0 => lo,
             1 => hi,
             2 => {
